@@ -3,7 +3,7 @@
    (b) evaluates the property itself (penalty exact / 0 iff feasible, >= multiplier otherwise)
    on the implementation's own coefficients by enumerating all assignments inside Coq. *)
 From Coq Require Import List ZArith QArith Qcanon Bool Arith.
-From Dimod Require Import Base.Util Model.Poly Model.Comb Model.Penalty Model.CqmBqm.
+From Dimod Require Import Base.Util Model.Poly Model.Comb Model.Penalty Model.CqmBqm Model.DqmAdj.
 Import ListNotations.
 Open Scope Qc_scope.
 
@@ -168,7 +168,16 @@ Record dqm_eq_case := mkDqmEq {
   de_terms : list lterm; de_lam : Qc; de_c : Qc;
   de_before : obs; de_after : obs;
   de_en_before : list (list (label * Qc) * Qc);     (* one-hot sample, DQM.energies before the call *)
-  de_en_after : list (list (label * Qc) * Qc) }.    (* ... after the call *)
+  de_en_after : list (list (label * Qc) * Qc);      (* ... after the call *)
+  de_adj_before : list (list nat);                  (* raw cyDQM adjacency (adj_) before / after *)
+  de_adj_after : list (list nat);
+  de_raw_quad : list qterm }.                       (* raw case-level interactions (to_numpy_vectors) after *)
+
+Definition adj_eqb (a b : list (list nat)) : bool := list_eqb (list_eqb Nat.eqb) a b.
+
+(* raw adjacency: equal to the merge model, well formed, and covering every raw case-level interaction *)
+Definition adjacency_ok (grp : label -> nat) (model after : list (list nat)) (raw : list qterm) : bool :=
+  adj_eqb model after && adj_wf_b after && adj_covers_b grp after raw.
 
 Definition check_dqm_eq (c : dqm_eq_case) : bool :=
   let before := obs_poly (de_before c) in
@@ -176,7 +185,9 @@ Definition check_dqm_eq (c : dqm_eq_case) : bool :=
   poly_coeff_eqb (de_n c) (add_eq_dqm (grp_of (de_groups c)) (de_terms c) (de_lam c) (de_c c) before) after
   && forallb (pen_exact_on before after (de_terms c) (de_lam c) (de_c c)) (onehot_assigns (de_groups c))
   && energies_ok before (de_en_before c) && energies_ok after (de_en_after c)
-  && (length (de_en_after c) =? length (onehot_assigns (de_groups c)))%nat.
+  && (length (de_en_after c) =? length (onehot_assigns (de_groups c)))%nat
+  && adjacency_ok (grp_of (de_groups c))
+       (dqm_eq_adjacency (grp_of (de_groups c)) (de_terms c) (de_adj_before c)) (de_adj_after c) (de_raw_quad c).
 
 Inductive dqm_outcome :=
 | DRaised
@@ -191,7 +202,10 @@ Record dqm_ineq_case := mkDqmIneq {
   di_out : dqm_outcome;
   di_before : obs; di_after : obs;
   di_en_before : list (list (label * Qc) * Qc);     (* every one-hot sample of the old variables *)
-  di_en_after : list (list (label * Qc) * Qc) }.    (* one-hot samples incl. slack variables (all, or an evenly spaced subset) *)
+  di_en_after : list (list (label * Qc) * Qc);      (* one-hot samples incl. slack variables (all, or an evenly spaced subset) *)
+  di_adj_before : list (list nat);
+  di_adj_after : list (list nat);
+  di_raw_quad : list qterm }.
 
 Definition plan_U (a : list Z) (const lb ub : Z) : Z :=
   (Z.min (sum_pos a) (ub - const) - Z.max (sum_neg a) (lb - const))%Z.
@@ -228,11 +242,30 @@ Definition dqm_ineq_oracle_ok (c : dqm_ineq_case) : bool :=
                                (min_increase before after x sas) (di_lam c)) xs
   end.
 
+(* add_variable for every slack variable (an empty adjacency row each), then the equality merge *)
+Definition dqm_ineq_adjacency_ok (c : dqm_ineq_case) : bool :=
+  let a := map snd (di_terms c) in
+  match plan_inequality a (di_const c) (di_lb c) (di_ub c), di_out c with
+  | Equality _, DReturned [] =>
+      adjacency_ok (grp_of (di_groups c))
+        (dqm_eq_adjacency (grp_of (di_groups c)) (qterms (di_terms c)) (di_adj_before c))
+        (di_adj_after c) (di_raw_quad c)
+  | Slack _ _, DReturned sl =>
+      let groups := di_groups c ++ map (map fst) sl in
+      let slack_terms := flat_map (fun var => tl var) sl in
+      adjacency_ok (grp_of groups)
+        (dqm_eq_adjacency (grp_of groups) (qterms (di_terms c ++ slack_terms))
+                          (di_adj_before c ++ repeat [] (length sl)))
+        (di_adj_after c) (di_raw_quad c)
+  | _, _ => adjacency_ok (grp_of (di_groups c)) (di_adj_before c) (di_adj_after c) (di_raw_quad c)
+  end.
+
 Definition check_dqm_ineq (c : dqm_ineq_case) : bool :=
   dqm_ineq_model_ok c && dqm_ineq_oracle_ok c
   && energies_ok (obs_poly (di_before c)) (di_en_before c)
   && energies_ok (obs_poly (di_after c)) (di_en_after c)
-  && (length (di_en_before c) =? length (onehot_assigns (di_groups c)))%nat.
+  && (length (di_en_before c) =? length (onehot_assigns (di_groups c)))%nat
+  && dqm_ineq_adjacency_ok c.
 
 (* ------------------------------------------------------------------ *)
 (* generators.binary_encoding *)
